@@ -20,6 +20,11 @@ what they were (core.factory_independent; carried by c11_inputs lines with kind=
 object AND bystanders come from FinishedPdu.success_pdu / FinishedParams.success_params / .empty / FileDataParams.empty
 (key "factory" of c11_fin / c11_fd lines), compared with the model built from the documented values of the factory.
 
+A fourth family, "alias" (op heap_alias): the aliasing clauses are theorems over the object-graph model Model/Heap.lean
+(Props/C11Heap.lean); the op compares the ALIAS GRAPH that model predicts for a scenario (setup + one library call: which of
+the named public access paths denote the same object, which pre-existing objects the call writes) with `is` and deep value
+snapshots on the real objects - see the section "heap_alias" below and DESIGN 13.10 for the comparison rule.
+
 KINDS is a table: adding a kind = one `Kind` subclass + one generator entry (+ one `Kind` record in Ops/Mutation.lean).
 """
 import copy
@@ -1206,10 +1211,396 @@ def op_factory(a):
     return {"untouched": True}
 
 
+# --------------------------------------------------------------------------------------------
+# heap_alias: the OBSERVED alias graph of a scenario, against the one the object-graph model predicts
+# (lean/SpVerif/Model/Heap.lean, Ops/Heap.lean, theorems in Props/C11Heap.lean; DESIGN 13.10).
+#
+# A scenario = setup (the objects the caller holds) + ONE library call. For the named access paths of the line (dotted PUBLIC
+# attribute names from a named root) the op evaluates the paths with getattr chains, keeps those that denote a mutable library
+# object (instances of the package's classes and lists; never ints / bytes / enums / None - their identity is a CPython
+# detail), partitions them with `is`, and detects writes by a deep value snapshot (public API) of every object that existed
+# before the call. Compared with the model under the rule of DESIGN 13.10:
+#   * every pair the MODEL says is separated must be two objects here            -> key `separated_broken` (must be [])
+#   * every object modified by the call must be one the MODEL says is written    -> key `unexpected_writes` (must be [])
+#   * the same paths denote objects                                               -> key `objects`
+#   * pairs the model says are SHARED but that are two objects here (an implementation that copies more), and predicted
+#     writes that do not happen, are information (`more_separated`, `fewer_writes`), never a violation.
+# The model's prediction travels in the line (`claim`, filled in by the generator from the driver's answer to the same
+# line; the model op re-derives it and answers `claim_ok`), so a replay file is self-contained.
+# --------------------------------------------------------------------------------------------
+PDU_KINDS = ["ack", "prompt", "keepalive", "nak", "eof", "finished", "metadata", "filedata"]
+ALIAS_INFO: Dict[str, Any] = {"lines": 0, "shared_pairs_predicted": 0, "shared_pairs_observed": 0, "more_separated": {},
+                              "writes_predicted": 0, "writes_observed": 0}
+
+
+def _P(p, k: str) -> int:
+    return int(p.get(k, 0))
+
+
+def _h_tc(p):
+    return PusTc(service=_P(p, "service"), subservice=_P(p, "subservice"), apid=_P(p, "apid"), app_data=bytes(_P(p, "dlen")),
+                 seq_count=_P(p, "count"), source_id=_P(p, "source_id"), ack_flags=_P(p, "ack"))
+
+
+def _h_tm(p):
+    return PusTm(service=_P(p, "service"), subservice=_P(p, "subservice"), timestamp=bytes(_P(p, "tslen")),
+                 source_data=bytes(_P(p, "dlen")), apid=_P(p, "apid"), seq_count=_P(p, "count"))
+
+
+def _h_hdr(p):
+    return SpacePacketHeader(packet_type=PacketType(_P(p, "ptype")), apid=_P(p, "apid"), seq_count=_P(p, "count"),
+                             data_len=_P(p, "hdlen"), sec_header_flag=bool(_P(p, "shf")), seq_flags=SequenceFlags(_P(p, "flags")),
+                             ccsds_version=_P(p, "version"))
+
+
+def _h_conf(p):
+    return PduConfig(source_entity_id=UnsignedByteField(_P(p, "src_v"), _P(p, "idw")),
+                     dest_entity_id=UnsignedByteField(_P(p, "dst_v"), _P(p, "idw")),
+                     transaction_seq_num=UnsignedByteField(_P(p, "seq_v"), _P(p, "seqw")),
+                     trans_mode=TransmissionMode(_P(p, "mode")), file_flag=LargeFileFlag(_P(p, "large")),
+                     crc_flag=CrcFlag(_P(p, "crc")), direction=Direction(_P(p, "dir")), seg_ctrl=SegmentationControl(_P(p, "segctrl")))
+
+
+def _h_resps(n: int):
+    return [FileStoreResponseTlv(FilestoreActionCode.DELETE_FILE_SNN, FilestoreResponseStatusCode.DELETE_SUCCESS, f"f{i}.txt")
+            for i in range(n)]
+
+
+def _h_caller_objs(kind: str, p) -> Dict[str, Any]:
+    """the parameter objects the caller builds for a PDU of the kind"""
+    if kind == "nak":
+        return {} if _P(p, "segs_none") else {"segs": [(i, i + 1) for i in range(_P(p, "nsegs"))]}
+    if kind == "eof":
+        return {"fl": EntityIdTlv(bytes([7]) * _P(p, "idw"))} if _P(p, "fault") else {}
+    if kind == "finished":
+        fl = EntityIdTlv(bytes([7]) * _P(p, "idw")) if _P(p, "fault") else None
+        return {"params": FinishedParams(ConditionCode(_P(p, "cond")), DeliveryCode(_P(p, "delivery")), FileStatus(_P(p, "status")),
+                                         _h_resps(_P(p, "nresp")), fl)}
+    if kind == "metadata":
+        r = {"params": MetadataParams(bool(_P(p, "closure")), ChecksumType(_P(p, "ctype")), _P(p, "size"), "src.bin", "dst.bin")}
+        if _P(p, "opts"):
+            r["options"] = [CfdpTlv(TlvType.FLOW_LABEL, bytes([1, 2, 3]))]
+        return r
+    if kind == "filedata":
+        sm = SegmentMetadata(RecordContinuationState(_P(p, "state")), bytes(_P(p, "metalen"))) if _P(p, "meta") else None
+        return {"params": FileDataParams(bytes(_P(p, "dlen")), _P(p, "offset"), sm)}
+    return {}
+
+
+def _h_build_pdu(kind: str, p, r: Dict[str, Any]):
+    conf = r["conf"]
+    if kind == "ack":
+        return AckPdu(conf, DirectiveType(_P(p, "acked")), ConditionCode(_P(p, "cond")), TransactionStatus(_P(p, "tstatus")))
+    if kind == "prompt":
+        return PromptPdu(conf, ResponseRequired(_P(p, "resp")))
+    if kind == "keepalive":
+        return KeepAlivePdu(conf, _P(p, "progress"))
+    if kind == "nak":
+        return NakPdu(conf, 0, _P(p, "end"), r.get("segs"))
+    if kind == "eof":
+        return EofPdu(conf, bytes(4), _P(p, "size"), r.get("fl"), ConditionCode(_P(p, "cond")))
+    if kind == "finished":
+        return FinishedPdu(conf, r["params"])
+    if kind == "metadata":
+        return MetadataPdu(conf, r["params"], r.get("options"))
+    return FileDataPdu(conf, r["params"])
+
+
+def _h_conf_objs_pdu(kind: str, p) -> Dict[str, Any]:
+    r = {"conf": _h_conf(p)}
+    r.update(_h_caller_objs(kind, p))
+    r["pdu"] = _h_build_pdu(kind, p, r)
+    return r
+
+
+def _h_tc_set(tc, p):
+    which, v = _P(p, "set"), _P(p, "v")
+    if which == 0:
+        tc.seq_count = v
+    elif which == 1:
+        tc.apid = v
+    elif which == 2:
+        tc.source_id = v
+    else:
+        tc.app_data = bytes(v)
+
+
+def _h_tm_set(tm, p):
+    which, v = _P(p, "set"), _P(p, "v")
+    if which == 0:
+        tm.apid = v
+    elif which == 1:
+        tm.seq_flags = SequenceFlags(v)
+    else:
+        tm.tm_data = bytes(v)
+
+
+_CONF_SCALARS = [("trans_mode", TransmissionMode), ("file_flag", LargeFileFlag), ("crc_flag", CrcFlag), ("direction", Direction),
+                 ("seg_ctrl", SegmentationControl)]
+_CONF_FIELDS = ["source_entity_id", "dest_entity_id", "transaction_seq_num"]
+_S1_CREATORS = {1: "create_acceptance_success_tm", 3: "create_start_success_tm", 7: "create_completion_success_tm"}
+
+
+def _h_scenario(name: str, p):
+    """(setup() -> roots, act(roots) -> roots the call adds)"""
+    kind = PDU_KINDS[_P(p, "kind")] if 0 <= _P(p, "kind") < 8 else None
+    S: Dict[str, Any] = {}
+
+    def reg(n, setup, act):
+        S[n] = (setup, act)
+
+    reg("reqid_from_sp_header", lambda: {"hdr": _h_hdr(p)}, lambda r: {"rid": RequestId.from_sp_header(r["hdr"])})
+    reg("reqid_from_pus_tc", lambda: {"tc": _h_tc(p)}, lambda r: {"rid": RequestId.from_pus_tc(r["tc"])})
+
+    def tc_and_rid():
+        tc = _h_tc(p)
+        return {"tc": tc, "rid": RequestId.from_pus_tc(tc)}
+    reg("reqid_twice", tc_and_rid, lambda r: {"rid2": RequestId.from_pus_tc(r["tc"])})
+    reg("reqid_then_tc_set", tc_and_rid, lambda r: _h_tc_set(r["tc"], p) or {})
+    reg("tc_to_space_packet", lambda: {"tc": _h_tc(p)}, lambda r: {"sp": r["tc"].to_space_packet()})
+
+    def tc_and_sp():
+        tc = _h_tc(p)
+        return {"tc": tc, "sp": tc.to_space_packet()}
+    reg("sp_then_tc_set", tc_and_sp, lambda r: _h_tc_set(r["tc"], p) or {})
+    reg("tm_to_space_packet", lambda: {"tm": _h_tm(p)}, lambda r: {"sp": r["tm"].to_space_packet()})
+
+    def tm_and_sp():
+        tm = _h_tm(p)
+        return {"tm": tm, "sp": tm.to_space_packet()}
+    reg("sp_then_tm_set", tm_and_sp, lambda r: _h_tm_set(r["tm"], p) or {})
+    reg("tc_from_sp_header", lambda: {"hdr": _h_hdr(p)},
+        lambda r: {"tc": PusTc.from_sp_header(r["hdr"], _P(p, "service"), _P(p, "subservice"), bytes(_P(p, "dlen")),
+                                              _P(p, "source_id"), _P(p, "ack"))})
+    reg("tc_from_composite",
+        lambda: {"hdr": _h_hdr(p), "sec": PusTcDataFieldHeader(_P(p, "service"), _P(p, "subservice"), _P(p, "source_id"), _P(p, "ack"))},
+        lambda r: {"tc": PusTc.from_composite_fields(r["hdr"], r["sec"], bytes(_P(p, "dlen")))})
+    reg("service1_from_tc", lambda: {"tc": _h_tc(p)},
+        lambda r: {"tm": getattr(pus1, _S1_CREATORS[_P(p, "sub")])(apid=_P(p, "apid2"), pus_tc=r["tc"], timestamp=bytes(_P(p, "tslen")))})
+
+    def add_tc(r):
+        from spacepackets.ecss.pus_verificator import PusVerificator  # noqa
+        if not r["v"].add_tc(r["tc"]):
+            raise SelfCheckFailure("PusVerificator.add_tc refuses the first telecommand")
+        keys = list(r["v"].verif_dict)
+        if len(keys) != 1:
+            raise SelfCheckFailure(f"PusVerificator holds {len(keys)} entries after one add_tc")
+        return {"key": keys[0]}
+
+    def verif_setup():
+        from spacepackets.ecss.pus_verificator import PusVerificator
+        return {"v": PusVerificator(), "tc": _h_tc(p)}
+    reg("verificator_add_tc", verif_setup, add_tc)
+    reg("tc_unpack", lambda: {"tc": _h_tc(p)}, lambda r: {"dec": PusTc.unpack(bytes(r["tc"].pack()))})
+    if kind is not None:
+        def ctor_setup():
+            r = {"conf": _h_conf(p)}
+            r.update(_h_caller_objs(kind, p))
+            return r
+        reg("pdu_ctor", ctor_setup, lambda r: {"pdu": _h_build_pdu(kind, p, r)})
+
+        def conf_scalar(r):
+            n, e = _CONF_SCALARS[_P(p, "attr")]
+            setattr(r["conf"], n, e(_P(p, "v")))
+            return {}
+        reg("pdu_then_conf_scalar", lambda: _h_conf_objs_pdu(kind, p), conf_scalar)
+
+        def conf_field(r):
+            getattr(r["conf"], _CONF_FIELDS[_P(p, "attr")]).value = _P(p, "v")
+            return {}
+        reg("pdu_then_conf_field", lambda: _h_conf_objs_pdu(kind, p), conf_field)
+        reg("two_pdus_one_conf", lambda: _h_conf_objs_pdu(kind, p),
+            lambda r: {"pdu2": _h_build_pdu(PDU_KINDS[_P(p, "kind2")], p, {"conf": r["conf"]})})
+
+        def holder_setup():
+            from spacepackets.cfdp.pdu.helper import PduHolder
+            r = _h_conf_objs_pdu(kind, p)
+            r["holder"] = PduHolder(None)
+            return r
+
+        def holder_act(r):
+            r["holder"].pdu = r["pdu"]
+            return {}
+        reg("holder_assign", holder_setup, holder_act)
+        reg("pdu_unpack", lambda: _h_conf_objs_pdu(kind, p), lambda r: {"dec": type(r["pdu"]).unpack(bytes(r["pdu"].pack()))})
+    reg("finished_success_pdu", lambda: {"conf": _h_conf(p)}, lambda r: {"pdu": FinishedPdu.success_pdu(r["conf"])})
+    mk = [FinishedParams.success_params, FinishedParams.empty, FileDataParams.empty, PduConfig.default][min(_P(p, "which"), 3)]
+    reg("factory_twice", lambda: {"a": mk()}, lambda r: {"b": mk()})
+
+    def fin_set(r):
+        which, v = _P(p, "set"), _P(p, "v")
+        if which == 0:
+            r["pdu"].condition_code = ConditionCode(v)
+            return {}
+        if which == 1:
+            arg = None if v == 0 else EntityIdTlv(bytes([9]) * v)
+            r["pdu"].fault_location = arg
+            return {} if arg is None else {"arg": arg}
+        arg = _h_resps(v)
+        r["pdu"].file_store_responses = arg
+        return {"arg": arg}
+    reg("finished_set", lambda: _h_conf_objs_pdu("finished", p), fin_set)
+
+    def fd_set(r):
+        which, v = _P(p, "set"), _P(p, "v")
+        if which == 0:
+            r["pdu"].file_data = bytes(v)
+            return {}
+        arg = None if v == 0 else SegmentMetadata(RecordContinuationState(0), bytes(v))
+        r["pdu"].segment_metadata = arg
+        return {} if arg is None else {"arg": arg}
+    reg("filedata_set", lambda: _h_conf_objs_pdu("filedata", p), fd_set)
+    return S.get(name)
+
+
+def _is_object(x) -> bool:
+    """a mutable library object: an instance of a class of the package (not an enum member) or a list"""
+    import enum
+    if x is None or isinstance(x, (bool, int, float, str, bytes, bytearray, tuple, enum.Enum)):
+        return False
+    return isinstance(x, list) or type(x).__module__.split(".")[0] == "spacepackets"
+
+
+def _eval_path(roots: Dict[str, Any], path: str):
+    segs = path.split(".")
+    if segs[0] not in roots:
+        return None
+    x = roots[segs[0]]
+    for s in segs[1:]:
+        if not _is_object(x) or isinstance(x, list):
+            return None
+        try:
+            x = getattr(x, s)
+        except AttributeError:
+            return None
+    return x if _is_object(x) else None
+
+
+def _hview(x):
+    """everything readable through an object (public API), as a value"""
+    import enum
+    from spacepackets.cfdp.pdu.helper import PduHolder
+    from spacepackets.cfdp.pdu.header import PduHeader
+    from spacepackets.cfdp.pdu.file_directive import FileDirectivePduBase
+    from spacepackets.ccsds.spacepacket import SpacePacket
+    if x is None or isinstance(x, (bool, str)):
+        return x
+    if isinstance(x, enum.Enum) or isinstance(x, int):
+        return int(x)
+    if isinstance(x, (bytes, bytearray)):
+        return hx(bytes(x))
+    if isinstance(x, (list, tuple)):
+        return [_hview(e) for e in x]
+    if isinstance(x, PacketId):
+        return _v_pid(x)
+    if isinstance(x, PacketSeqCtrl):
+        return _v_psc(x)
+    if isinstance(x, SpacePacketHeader):
+        return _v_sph(x)
+    if isinstance(x, PusTcDataFieldHeader):
+        return [int(x.service), int(x.subservice), int(x.source_id), int(x.ack_flags)]
+    if isinstance(x, PusTmSecondaryHeader):
+        return [int(x.service), int(x.subservice), int(x.message_counter), int(x.dest_id), int(x.spacecraft_time_ref), hx(x.timestamp)]
+    if isinstance(x, PusTc):
+        return [_v_sph(x.sp_header), _hview(x.pus_tc_sec_header), hx(x.app_data)]
+    if isinstance(x, PusTm):
+        return [_v_sph(x.sp_header), _hview(x.pus_tm_sec_header), hx(x.tm_data)]
+    if isinstance(x, SpacePacket):
+        return [_v_sph(x.sp_header), _hview(x.sec_header), _hview(x.user_data)]
+    if isinstance(x, RequestId):
+        return _v_reqid(x)
+    if isinstance(x, Service1Tm):
+        return [_v_reqid(x.tc_req_id), _hview(x.pus_tm)]
+    if isinstance(x, UnsignedByteField):
+        return _v_field(x)
+    if isinstance(x, PduConfig):
+        return _v_conf(x)
+    if isinstance(x, PduHeader):
+        return [_v_conf(x.pdu_conf), int(x.pdu_type), int(x.segment_metadata_flag), int(x.pdu_data_field_len)]
+    if isinstance(x, FileDirectivePduBase):
+        return [_hview(x.pdu_header), int(x.directive_type)]
+    if isinstance(x, FinishedParams):
+        return _v_finparams(x)
+    if isinstance(x, FileDataParams):
+        return _v_fdparams(x)
+    if isinstance(x, SegmentMetadata):
+        return [int(x.record_cont_state), hx(x.metadata)]
+    if isinstance(x, MetadataParams):
+        return _snap(x)
+    if isinstance(x, PduHolder):
+        return _hview(x.pdu)
+    if isinstance(x, (AckPdu, PromptPdu, KeepAlivePdu, NakPdu, EofPdu, FinishedPdu, MetadataPdu, FileDataPdu)):
+        try:
+            raw = hx(bytes(x.pack()))
+        except Exception as e:  # noqa
+            raw = "pack: " + exc_category(e)
+        extra: List[Any] = []
+        if isinstance(x, FinishedPdu):
+            extra = [_v_finparams(x.finished_params)]
+        elif isinstance(x, FileDataPdu):
+            sm = x.segment_metadata
+            extra = [hx(x.file_data), int(x.offset), None if sm is None else [int(sm.record_cont_state), hx(sm.metadata)]]
+        elif isinstance(x, MetadataPdu):
+            extra = [_snap(x.params), None if x.options is None else [_snap_tlv(t) for t in x.options]]
+        elif isinstance(x, NakPdu):
+            extra = [_hview(x.segment_requests)]
+        elif isinstance(x, EofPdu):
+            extra = [_snap_tlv(x.fault_location)]
+        return [type(x).__name__, raw, _hview(x.pdu_header), int(x.packet_len)] + extra
+    t = _snap_tlv(x)
+    return t
+
+
+def op_heap_alias(a):
+    p, paths = a["p"], list(a["paths"])
+    scn = _h_scenario(a["scenario"], p)
+    if scn is None:
+        raise core.InfraError(f"C11: no alias scenario named {a['scenario']!r} for kind {p.get('kind')!r}")
+    setup, act = scn
+    roots = _build(setup, "scenario setup (constructors)")
+    before = {q: _eval_path(roots, q) for q in paths}
+    before = {q: o for q, o in before.items() if o is not None}
+    snap0 = {q: _hview(o) for q, o in before.items()}
+    added = act(roots)
+    roots = dict(roots)
+    roots.update(added)
+    obs = {q: _eval_path(roots, q) for q in paths}
+    obs = {q: o for q, o in obs.items() if o is not None}
+    written = sorted(q for q, o in before.items() if _hview(o) != snap0[q])
+    by_id: Dict[int, List[str]] = {}
+    for q, o in obs.items():
+        by_id.setdefault(id(o), []).append(q)
+    classes = sorted(sorted(c) for c in by_id.values())
+    claim = a.get("claim") or {"separated": [], "may_write": [], "objects": []}
+    broken = []
+    for pair in claim["separated"]:
+        x, y = pair.split("|")
+        if x in obs and y in obs and obs[x] is obs[y]:
+            broken.append(pair)
+    unexpected = sorted(set(written) - set(claim["may_write"]))
+    # information: the model's shared pairs that are two objects here, predicted writes that did not happen
+    objs = [q for q in claim["objects"] if q in obs]
+    sep = set(claim["separated"])
+    shared_pred = [f"{x}|{y}" for i, x in enumerate(objs) for y in objs[i + 1:] if f"{x}|{y}" not in sep and f"{y}|{x}" not in sep]
+    more = [pr for pr in shared_pred if obs[pr.split("|")[0]] is not obs[pr.split("|")[1]]]
+    fewer = sorted(set(claim["may_write"]) - set(written))
+    ALIAS_INFO["lines"] += 1
+    ALIAS_INFO["shared_pairs_predicted"] += len(shared_pred)
+    ALIAS_INFO["shared_pairs_observed"] += len(shared_pred) - len(more)
+    ALIAS_INFO["writes_predicted"] += len(claim["may_write"])
+    ALIAS_INFO["writes_observed"] += len(written)
+    for pr in more:
+        k = f"{a['scenario']}: {pr}"
+        ALIAS_INFO["more_separated"][k] = ALIAS_INFO["more_separated"].get(k, 0) + 1
+    ALIAS_INFO["last"] = {"scenario": a["scenario"], "classes": classes, "written": written, "more_separated": sorted(more), "fewer_writes": fewer}
+    # exactly the keys of the model op (a replay file compares every key)
+    return {"objects": sorted(obs), "claim_ok": True, "separated_broken": sorted(broken), "unexpected_writes": unexpected}
+
+
 OPS = {"c11_tc": _seq_op("tc"), "c11_tm": _seq_op("tm"), "c11_nak": _seq_op("nak"), "c11_ka": _seq_op("ka"),
        "c11_fd": _seq_op("fd"), "c11_frame": _seq_op("frame"), "c11_eof": _seq_op("eof"), "c11_fin": _seq_op("finished"),
        "c11_md": _seq_op("metadata"), "c11_selfcheck": op_selfcheck,
-       "c11_inputs": op_inputs, "c11_conf": op_conf}
+       "c11_inputs": op_inputs, "c11_conf": op_conf, "heap_alias": op_heap_alias}
 
 
 # --------------------------------------------------------------------------------------------
@@ -1593,33 +1984,224 @@ def fixes_for(name: str, thorough: bool) -> List[Dict[str, Any]]:
     return out
 
 
+# ---- alias-graph scenarios: access paths and parameter variants ----
+def _hdr_paths(n):
+    return [n, f"{n}.packet_id", f"{n}.packet_seq_control"]
+
+
+def _rid_paths(n):
+    return [n, f"{n}.tc_packet_id", f"{n}.tc_psc"]
+
+
+TC_PATHS = ["tc", "tc.pus_tc_sec_header", "tc.packet_id", "tc.packet_seq_control"] + _hdr_paths("tc.sp_header")
+TM_PATHS = ["tm", "tm.pus_tm_sec_header", "tm.packet_id", "tm.packet_seq_control", "tm.space_packet_header"] + _hdr_paths("tm.sp_header")
+SP_PATHS = ["sp"] + _hdr_paths("sp.sp_header")
+S1_PATHS = (["tm", "tm.pus_tm", "tm.packet_id", "tm.packet_seq_control"] + _rid_paths("tm.tc_req_id") + _hdr_paths("tm.sp_header")
+            + _hdr_paths("tm.pus_tm.sp_header"))
+
+
+def _conf_paths(n):
+    return [n, f"{n}.source_entity_id", f"{n}.dest_entity_id", f"{n}.transaction_seq_num"]
+
+
+def _pdu_paths(n, kind):
+    out = [n, f"{n}.pdu_header", f"{n}.source_entity_id", f"{n}.dest_entity_id", f"{n}.transaction_seq_num",
+           f"{n}.pdu_header.source_entity_id"] + _conf_paths(f"{n}.pdu_header.pdu_conf")
+    if kind != "filedata":
+        out += [f"{n}.pdu_file_directive", f"{n}.pdu_file_directive.pdu_header", f"{n}.pdu_file_directive.pdu_conf"]
+    out += {"nak": [f"{n}.segment_requests"], "eof": [f"{n}.fault_location"],
+            "finished": [f"{n}.finished_params", f"{n}.file_store_responses", f"{n}.fault_location"],
+            "metadata": [f"{n}.params", f"{n}.options"], "filedata": [f"{n}.segment_metadata"]}.get(kind, [])
+    return out
+
+
+def _caller_paths(kind):
+    return {"nak": ["segs"], "eof": ["fl"], "finished": ["params", "params.file_store_responses", "params.fault_location"],
+            "metadata": ["params", "options"], "filedata": ["params", "params.segment_metadata"]}.get(kind, [])
+
+
+def _alias_paths(name: str, kind: Optional[str], p) -> List[str]:
+    cp = _conf_paths("conf") + _caller_paths(kind) + _pdu_paths("pdu", kind) if kind else []
+    return {
+        "reqid_from_sp_header": _hdr_paths("hdr") + _rid_paths("rid"),
+        "reqid_from_pus_tc": TC_PATHS + _rid_paths("rid"),
+        "reqid_twice": TC_PATHS + _rid_paths("rid") + _rid_paths("rid2"),
+        "reqid_then_tc_set": TC_PATHS + _rid_paths("rid"),
+        "tc_to_space_packet": TC_PATHS + SP_PATHS,
+        "sp_then_tc_set": TC_PATHS + SP_PATHS,
+        "tm_to_space_packet": TM_PATHS + SP_PATHS,
+        "sp_then_tm_set": TM_PATHS + SP_PATHS,
+        "tc_from_sp_header": _hdr_paths("hdr") + TC_PATHS,
+        "tc_from_composite": _hdr_paths("hdr") + ["sec"] + TC_PATHS,
+        "service1_from_tc": TC_PATHS + S1_PATHS,
+        "verificator_add_tc": TC_PATHS + _rid_paths("key"),
+        "tc_unpack": TC_PATHS + [q.replace("tc", "dec", 1) for q in TC_PATHS],
+        "pdu_ctor": cp, "pdu_then_conf_scalar": cp, "pdu_then_conf_field": cp,
+        "two_pdus_one_conf": cp + _pdu_paths("pdu2", PDU_KINDS[_P(p, "kind2")]),
+        "holder_assign": cp + ["holder", "holder.pdu", "holder.pdu.pdu_header"],
+        "pdu_unpack": cp + (_pdu_paths("dec", kind) if kind else []),
+        "finished_success_pdu": _conf_paths("conf") + _pdu_paths("pdu", "finished"),
+        "factory_twice": [x for n in ("a", "b") for x in (_conf_paths(n) if _P(p, "which") == 3 else
+                                                          [n, f"{n}.file_store_responses", f"{n}.fault_location", f"{n}.segment_metadata"])],
+        "finished_set": _conf_paths("conf") + _caller_paths("finished") + _pdu_paths("pdu", "finished") + ["arg"],
+        "filedata_set": _conf_paths("conf") + _caller_paths("filedata") + _pdu_paths("pdu", "filedata") + ["arg"],
+    }[name]
+
+
+def _alias_base(rng: random.Random) -> Dict[str, int]:
+    idw, seqw = rng.choice([1, 2, 4, 8]), rng.choice([1, 2, 4, 8])
+    return {"service": rng.randint(1, 255), "subservice": rng.randint(1, 255), "apid": rng.randint(1, 2047), "apid2": rng.randint(1, 2047),
+            "count": rng.randint(1, 16383), "source_id": rng.randint(0, 65535), "ack": rng.randint(0, 15), "dlen": rng.randint(0, 40),
+            "tslen": rng.choice([0, 7]), "ptype": rng.randint(0, 1), "shf": rng.randint(0, 1), "flags": rng.randint(0, 3),
+            "version": rng.randint(0, 7), "hdlen": rng.randint(0, 65535),
+            "idw": idw, "seqw": seqw, "src_v": rng.randint(0, 255), "dst_v": rng.randint(0, 255), "seq_v": rng.randint(0, 255),
+            "mode": rng.randint(0, 1), "large": rng.randint(0, 1), "crc": rng.randint(0, 1), "dir": rng.randint(0, 1),
+            "segctrl": rng.randint(0, 1), "acked": rng.choice([4, 5]), "cond": rng.choice([0, 1, 4]), "tstatus": rng.randint(0, 3),
+            "resp": rng.randint(0, 1), "progress": rng.randint(0, U32), "end": rng.randint(0, U32), "size": rng.randint(0, U32),
+            "nsegs": rng.randint(0, 3), "segs_none": 0, "fault": rng.randint(0, 1), "nresp": rng.choice([0, 2]),
+            "delivery": rng.randint(0, 1), "status": rng.randint(0, 3), "closure": rng.randint(0, 1), "ctype": rng.choice([0, 15]),
+            "opts": rng.randint(0, 1), "meta": rng.randint(0, 1), "state": rng.randint(0, 3), "metalen": rng.randint(0, 20),
+            "offset": rng.randint(0, U32)}
+
+
+def alias_lines(rng: random.Random, thorough: bool) -> List[Dict[str, Any]]:
+    """every scenario x its parameter variants (PDU kind, CRC flag, large-file flag, widths, which setter, ...)"""
+    out: List[Dict[str, Any]] = []
+
+    def add(name, **fix):
+        p = _alias_base(rng)
+        p.update(fix)
+        if name == "pdu_unpack" and p.get("fault") and PDU_KINDS[p["kind"]] == "finished":
+            p["cond"] = 4            # a condition code under which the fault location is part of the packed PDU
+        kind = PDU_KINDS[p["kind"]] if "kind" in p else None
+        out.append({"op": "heap_alias", "scenario": name, "p": p, "paths": sorted(set(_alias_paths(name, kind, p)))})
+
+    reps = 3 if thorough else 1
+    for _ in range(reps):
+        for pt in (0, 1):
+            for shf in (0, 1):
+                add("reqid_from_sp_header", ptype=pt, shf=shf)
+                add("tc_from_sp_header", ptype=pt, shf=shf)
+            add("tc_from_composite", ptype=1, shf=pt)
+        for _i in range(2):
+            add("reqid_from_pus_tc")
+            add("reqid_twice")
+            add("tc_to_space_packet")
+            add("tm_to_space_packet")
+            add("verificator_add_tc")
+            add("tc_unpack")
+        for which in range(4):
+            b = _alias_base(rng)
+            v = {0: (b["count"] + 1) % 16384, 1: (b["apid"] + 1) % 2048, 2: (b["source_id"] + 1) % 65536, 3: b["dlen"] + 1}[which]
+            add("reqid_then_tc_set", set=which, v=v, **{k: b[k] for k in ("count", "apid", "source_id", "dlen")})
+            add("sp_then_tc_set", set=which, v=v, **{k: b[k] for k in ("count", "apid", "source_id", "dlen")})
+        for which in range(3):
+            b = _alias_base(rng)
+            v = {0: (b["apid"] + 1) % 2048, 1: 1, 2: b["dlen"] + 1}[which]
+            add("sp_then_tm_set", set=which, v=v, apid=b["apid"], dlen=b["dlen"])
+        for sub in (1, 3, 7):
+            add("service1_from_tc", sub=sub)
+        for k, kind in enumerate(PDU_KINDS):
+            subs = {"ack": [{"acked": 4}, {"acked": 5}], "nak": [{"segs_none": 0}, {"segs_none": 1}], "eof": [{"fault": 0}, {"fault": 1}],
+                    "finished": [{"fault": 0, "nresp": 0}, {"fault": 1, "nresp": 2}], "metadata": [{"opts": 0}, {"opts": 1}],
+                    "filedata": [{"meta": 0}, {"meta": 1}]}.get(kind, [{}])
+            for crc in (0, 1):
+                for large in (0, 1):
+                    for sv in subs:
+                        add("pdu_ctor", kind=k, crc=crc, large=large, dir=rng.randint(0, 1), **sv)
+                    add("pdu_unpack", **{"kind": k, "crc": crc, "large": large, **rng.choice(subs), "segs_none": 0})
+            for attr in range(5):
+                b = _alias_base(rng)
+                cur = [b["mode"], b["large"], b["crc"], b["dir"], b["segctrl"]][attr]
+                add("pdu_then_conf_scalar", kind=k, attr=attr, v=1 - cur, mode=b["mode"], large=b["large"], crc=b["crc"], dir=b["dir"],
+                    segctrl=b["segctrl"])
+            for attr in range(3):
+                b = _alias_base(rng)
+                cur = [b["src_v"], b["dst_v"], b["seq_v"]][attr]
+                add("pdu_then_conf_field", kind=k, attr=attr, v=(cur + 1) % 256, src_v=b["src_v"], dst_v=b["dst_v"], seq_v=b["seq_v"])
+            for k2 in range(4):
+                add("two_pdus_one_conf", kind=k, kind2=k2, segs_none=1 if k2 == 3 and kind != "nak" else 0)
+            add("holder_assign", kind=k)
+        for crc in (0, 1):
+            for large in (0, 1):
+                add("finished_success_pdu", crc=crc, large=large)
+        for which in range(4):
+            add("factory_twice", which=which)
+        for fault in (0, 1):
+            add("finished_set", kind=5, set=0, v=4, cond=0, fault=fault)
+            add("finished_set", kind=5, set=0, v=0, cond=4, fault=fault)
+            for v in (0, 1, 2):
+                add("finished_set", kind=5, set=1, v=v, fault=fault, cond=4)
+            for v in (0, 1, 3):
+                add("finished_set", kind=5, set=2, v=v, fault=fault)
+        for meta in (0, 1):
+            b = _alias_base(rng)
+            add("filedata_set", kind=7, set=0, v=b["dlen"] + 1, dlen=b["dlen"], meta=meta)
+            for v in (0, 3):
+                add("filedata_set", kind=7, set=1, v=v, meta=meta, metalen=5)
+    return out
+
+
+def alias_cases(rng: random.Random, thorough: bool) -> Iterator[Case]:
+    lines = alias_lines(rng, thorough)
+    # the model's prediction for each line (the driver evaluates Heap.lean), carried in the line as `claim`
+    answers = core.run_driver([json.dumps(dict(l, op="heap_alias_predict")) for l in lines])
+    for l, r in zip(lines, answers):
+        m = r.get("ok")
+        if isinstance(m, dict):
+            l["claim"] = {"separated": m["separated"], "may_write": m["written"], "objects": m["objects"]}
+        yield Case(l, "valid", tag=f"alias-{l['scenario']}")
+
+
 class C11(Prop):
     id = "C11"
     title = "Lengths track mutations, pack is repeatable, caller inputs are not modified"
-    lean_modules = ["SpVerif.Props.C11"]
+    lean_modules = ["SpVerif.Props.C11", "SpVerif.Props.C11Heap"]
     exhaustive_note = ("every sequence of length 1..3 (thorough: 1..4) over a pool of 2-7 setter calls per class "
                        "(small arguments, clearing arguments and one refused oversized argument) for every class x "
                        "{CRC, large file} / {from constructor, from decoder} / construction rule; all 512 header "
                        "configurations through the six mutable CFDP constructors for the caller's PduConfig; every ordered pair of "
                        "entity-ID widths (same number) as consecutive EOF / Finished fault locations under every condition "
                        "code; every pool call (NAK / Keep Alive: every pair) with bystander objects for every caller direction "
-                       "x large file flag")
-    trusted_base = [
-        "object identity and aliasing are outside a functional model: 'the caller's objects are not modified' is carried by "
-        "the tie (value snapshots of every caller-supplied PduConfig / params dataclass / TLV list / bytes before and after "
-        "constructor and pack(); bystander objects built from the same PduConfig object re-observed after every setter call "
-        "on another object)",
+                       "x large file flag; alias graphs: every scenario of the object-graph model x {PDU kind} x {CRC, large file} x "
+                       "{optional caller objects present / absent} x {every modelled setter / configuration attribute}")
+    _trusted_static = [
+        "object identity: the aliasing clauses ('the caller's objects are not modified', request ID / space-packet view are "
+        "snapshots, factory results are independent) are theorems over the object-graph model Model/Heap.lean (Props/C11Heap.lean: "
+        "frame lemma, write sets of every constructor / factory / decoder, separation for all setter sequences, and the sharing "
+        "that exists stated as it is); that the model allocates, stores and writes where the Python code does is OBSERVED, not "
+        "proved: op heap_alias compares the alias graph the model predicts for every scenario x parameter variant with `is` and "
+        "deep value snapshots on the real objects, for the listed public access paths only (rule: every pair the model separates "
+        "must be two objects, every modified object must be one the model writes; more separation / fewer writes than predicted "
+        "are information). CPython object identity semantics (`is`, copy.copy, copy.deepcopy, dataclass default_factory) are trusted",
+        "further value-level evidence for the same clause: value snapshots of every caller-supplied PduConfig / params dataclass / "
+        "TLV list / bytes before and after constructor and pack(); bystander objects built from the same PduConfig object "
+        "re-observed after every setter call on another object",
         "the filestore-response TLV cache is modelled as a record of what pack() caches (no documented setter mutates a TLV "
         "object); caches inside Metadata option objects are not modelled (== against a deep copy taken before pack() is "
         "checked on the real objects)",
     ]
-    assumptions = ["setter arguments are of the documented types (octet strings, enum members, TLV objects, lists)"]
+    assumptions = ["setter arguments are of the documented types (octet strings, enum members, TLV objects, lists)",
+                   "heap model: caches (_crc16, filestore TLV cache) and objects unreachable when a call returns are not cells; "
+                   "length scalars only record that a setter rewrites them (their values are Model/Mutation.lean's subject); "
+                   "views are taken to depth 8 (deepest modelled chain: 4 attribute steps)"]
+
+    @property
+    def trusted_base(self):
+        """static text plus what the alias-graph tie saw in this run (read when the evidence file is written)"""
+        i = ALIAS_INFO
+        more = sorted(i["more_separated"])
+        dyn = (f"alias-graph tie, this run: {i['lines']} scenario lines; pairs of paths the model predicts SHARED: "
+               f"{i['shared_pairs_predicted']}, of which the implementation shares {i['shared_pairs_observed']}; writes predicted "
+               f"{i['writes_predicted']}, observed {i['writes_observed']} (fewer = accepted); pairs more separated than predicted "
+               f"(accepted, information): {len(more)}" + (": " + "; ".join(more[:12]) if more else ""))
+        return list(self._trusted_static) + [dyn]
 
     def impl_ops(self):
         return OPS
 
     def nontrivial(self, c):
-        return bool(c.op.get("steps")) or c.op["op"] in ("c11_inputs", "c11_conf")
+        return bool(c.op.get("steps")) or c.op["op"] in ("c11_inputs", "c11_conf", "heap_alias")
 
     def table_sync(self):
         d = []
@@ -1682,6 +2264,8 @@ class C11(Prop):
         yield from self.twin_cases(rng, thorough)
         # 3d. objects and parameter objects that come from the library's factories
         yield from self.factory_cases(rng, thorough)
+        # 3e. alias graphs: the object-graph model's prediction against `is` on the real objects
+        yield from alias_cases(rng, thorough)
         # 4. caller inputs: all 512 header configurations through the three modelled constructors
         for kind in ("nak", "keepalive", "filedata", "eof", "finished", "metadata"):
             for a in c06.all_confs(rng):
